@@ -217,8 +217,8 @@ theorem flatV_total (Hs : Hashes) (π : Proof) (h : ProofWF π) (lh r : Bytes) :
   rw [hx]
   exact ⟨_, rfl⟩
 
-theorem verifyLeaf_total (Hs : Hashes) (eciOk : Bytes → EciCheck) (π : Proof) (h : ProofWF π) (leaf r : Bytes) :
-    ∃ b, verifyLeaf (flatCtx Hs eciOk) π leaf r = .value b := flatV_total Hs π h _ _
+theorem verifyLeaf_total (Hs : Hashes) (eciOk : Bytes → EciCheck) (fix : Bool) (π : Proof) (h : ProofWF π) (leaf r : Bytes) :
+    ∃ b, verifyLeaf (flatCtx Hs eciOk fix) π leaf r = .value b := flatV_total Hs π h _ _
 
 /-! ### Every receiver is total -/
 
@@ -256,8 +256,8 @@ theorem decodeRt_wf (r : RtRaw) (x : Rt) (h : decodeRt r = .value (.ok x)) :
         cases r
         simp_all
 
-theorem decodeEci_total (Hs : Hashes) (eciOk : Bytes → EciCheck) (dh : Bytes) (r : EciRaw) :
-    ∃ v, decodeEci (flatCtx Hs eciOk) dh r = .value v := by
+theorem decodeEci_total (Hs : Hashes) (eciOk : Bytes → EciCheck) (fix : Bool) (dh : Bytes) (r : EciRaw) :
+    ∃ v, decodeEci (flatCtx Hs eciOk fix) dh r = .value v := by
   unfold decodeEci
   split
   · exact ⟨_, rfl⟩
@@ -265,17 +265,17 @@ theorem decodeEci_total (Hs : Hashes) (eciOk : Bytes → EciCheck) (dh : Bytes) 
     apply andThen_total (mapErr_total _ (decodeProof_total _))
     intro π hπ
     have hw := (decodeProof_wf p π (mapErr_eq_ok.mp hπ)).1
-    apply andThen_total (guardV_total _ (verifyLeaf_total Hs eciOk π hw _ _))
+    apply andThen_total (guardV_total _ (verifyLeaf_total Hs eciOk fix π hw _ _))
     intro _ _
     split <;> exact ⟨_, rfl⟩
 
-theorem decodeEciOpt_total (Hs : Hashes) (eciOk : Bytes → EciCheck) (dh : Bytes) (r : Option EciRaw) :
-    ∃ v, decodeEciOpt (flatCtx Hs eciOk) dh r = .value v := by
+theorem decodeEciOpt_total (Hs : Hashes) (eciOk : Bytes → EciCheck) (fix : Bool) (dh : Bytes) (r : Option EciRaw) :
+    ∃ v, decodeEciOpt (flatCtx Hs eciOk fix) dh r = .value v := by
   cases r with
   | none => exact ⟨_, rfl⟩
   | some e =>
     simp only [decodeEciOpt]
-    apply andThen_total (decodeEci_total Hs eciOk dh e)
+    apply andThen_total (decodeEci_total Hs eciOk fix dh e)
     intro _ _
     exact ⟨_, rfl⟩
 
@@ -285,21 +285,21 @@ theorem rts_wf (raws : List RtRaw) (rts : List Rt) (h : mapM' decodeRt raws = .v
   obtain ⟨a, _, ha⟩ := (mapM'_ok decodeRt raws rts h).mem_right r (mem_imCollect rts r hr)
   exact (decodeRt_wf a r ha).1
 
-theorem checkRts_total (Hs : Hashes) (eciOk : Bytes → EciCheck) (root : Bytes) :
-    ∀ (l : List Rt), (∀ r ∈ l, ProofWF r.proof) → ∃ v, checkRts (flatCtx Hs eciOk) root l = .value v := by
+theorem checkRts_total (Hs : Hashes) (eciOk : Bytes → EciCheck) (fix : Bool) (root : Bytes) :
+    ∀ (l : List Rt), (∀ r ∈ l, ProofWF r.proof) → ∃ v, checkRts (flatCtx Hs eciOk fix) root l = .value v := by
   intro l
   induction l with
   | nil => intro _; exact ⟨_, rfl⟩
   | cons x rest ih =>
     intro h
     simp only [checkRts]
-    apply andThen_total (guardV_total _ (verifyLeaf_total Hs eciOk x.proof (h x (by simp)) _ _))
+    apply andThen_total (guardV_total _ (verifyLeaf_total Hs eciOk fix x.proof (h x (by simp)) _ _))
     intro _ _
     exact ih (fun r hr => h r (List.mem_cons_of_mem _ hr))
 
 /-- `SequencerBlock::try_from_raw` returns `Ok` or `Err` — never panics — for every raw value. -/
-theorem fullFromRaw_total (Hs : Hashes) (eciOk : Bytes → EciCheck) (r : BlockRaw) :
-    ∃ v, fullFromRaw (flatCtx Hs eciOk) r = .value v := by
+theorem fullFromRaw_total (Hs : Hashes) (eciOk : Bytes → EciCheck) (fix : Bool) (r : BlockRaw) :
+    ∃ v, fullFromRaw (flatCtx Hs eciOk fix) r = .value v := by
   unfold fullFromRaw
   apply andThen_total (liftE_total _); intro bh _
   apply andThen_total (optField_total _ _); intro rtp _
@@ -310,17 +310,22 @@ theorem fullFromRaw_total (Hs : Hashes) (eciOk : Bytes → EciCheck) (r : BlockR
   have wip := (decodeProof_wf rip idsProof (mapErr_eq_ok.mp hip)).1
   apply andThen_total (optField_total _ _); intro rh _
   apply andThen_total (liftE_total _); intro header _
-  apply andThen_total (mapErr_total _ (mapM'_total decodeRt decodeRt_total _)); intro rts _
-  apply andThen_total (guardV_total _ (verifyLeaf_total Hs eciOk txsProof wtp _ _)); intro _ _
-  apply andThen_total (guardV_total _ (verifyLeaf_total Hs eciOk txsProof wtp _ _)); intro _ _
-  apply andThen_total (guardV_total _ (verifyLeaf_total Hs eciOk idsProof wip _ _)); intro _ _
+  apply andThen_total (mapErr_total _ (mapM'_total decodeRt decodeRt_total _)); intro rts hrts
+  have wrts := rts_wf _ rts (mapErr_eq_ok.mp hrts)
+  apply andThen_total (guardV_total _ (verifyLeaf_total Hs eciOk fix txsProof wtp _ _)); intro _ _
+  apply andThen_total (guardV_total _ (verifyLeaf_total Hs eciOk fix txsProof wtp _ _)); intro _ _
+  apply andThen_total (by
+    split
+    · exact mapErr_total _ (checkRts_total Hs eciOk fix _ _ wrts)
+    · exact ⟨_, rfl⟩); intro _ _
+  apply andThen_total (guardV_total _ (verifyLeaf_total Hs eciOk fix idsProof wip _ _)); intro _ _
   apply andThen_total (liftE_total _); intro uch _
-  apply andThen_total (mapErr_total _ (decodeEciOpt_total Hs eciOk _ _)); intro eci _
+  apply andThen_total (mapErr_total _ (decodeEciOpt_total Hs eciOk fix _ _)); intro eci _
   exact ⟨_, rfl⟩
 
 /-- `FilteredSequencerBlock::try_from_raw` never panics. -/
-theorem filteredFromRaw_total (Hs : Hashes) (eciOk : Bytes → EciCheck) (r : FilteredRaw) :
-    ∃ v, filteredFromRaw (flatCtx Hs eciOk) r = .value v := by
+theorem filteredFromRaw_total (Hs : Hashes) (eciOk : Bytes → EciCheck) (fix : Bool) (r : FilteredRaw) :
+    ∃ v, filteredFromRaw (flatCtx Hs eciOk fix) r = .value v := by
   unfold filteredFromRaw
   apply andThen_total (liftE_total _); intro bh _
   apply andThen_total (optField_total _ _); intro rtp _
@@ -334,16 +339,16 @@ theorem filteredFromRaw_total (Hs : Hashes) (eciOk : Bytes → EciCheck) (r : Fi
   apply andThen_total (mapErr_total _ (mapM'_total decodeRt decodeRt_total _)); intro rts hrts
   have wrts := rts_wf _ rts (mapErr_eq_ok.mp hrts)
   apply andThen_total (liftE_total _); intro allIds _
-  apply andThen_total (guardV_total _ (verifyLeaf_total Hs eciOk txsProof wtp _ _)); intro _ _
-  apply andThen_total (checkRts_total Hs eciOk _ _ wrts); intro _ _
-  apply andThen_total (guardV_total _ (verifyLeaf_total Hs eciOk idsProof wip _ _)); intro _ _
+  apply andThen_total (guardV_total _ (verifyLeaf_total Hs eciOk fix txsProof wtp _ _)); intro _ _
+  apply andThen_total (checkRts_total Hs eciOk fix _ _ wrts); intro _ _
+  apply andThen_total (guardV_total _ (verifyLeaf_total Hs eciOk fix idsProof wip _ _)); intro _ _
   apply andThen_total (liftE_total _); intro uch _
-  apply andThen_total (mapErr_total _ (decodeEciOpt_total Hs eciOk _ _)); intro eci _
+  apply andThen_total (mapErr_total _ (decodeEciOpt_total Hs eciOk fix _ _)); intro eci _
   exact ⟨_, rfl⟩
 
 /-- `SubmittedMetadata::try_from_raw` never panics. -/
-theorem metaFromRaw_total (Hs : Hashes) (eciOk : Bytes → EciCheck) (r : MetaRaw) :
-    ∃ v, metaFromRaw (flatCtx Hs eciOk) r = .value v := by
+theorem metaFromRaw_total (Hs : Hashes) (eciOk : Bytes → EciCheck) (fix : Bool) (r : MetaRaw) :
+    ∃ v, metaFromRaw (flatCtx Hs eciOk fix) r = .value v := by
   unfold metaFromRaw
   apply andThen_total (optField_total _ _); intro rh _
   apply andThen_total (liftE_total _); intro header _
@@ -356,9 +361,9 @@ theorem metaFromRaw_total (Hs : Hashes) (eciOk : Bytes → EciCheck) (r : MetaRa
   have wip := (decodeProof_wf rip idsProof (mapErr_eq_ok.mp hip)).1
   apply andThen_total (liftE_total _); intro bh _
   apply andThen_total (liftE_total _); intro uch _
-  apply andThen_total (mapErr_total _ (decodeEciOpt_total Hs eciOk _ _)); intro eci _
-  apply andThen_total (guardV_total _ (verifyLeaf_total Hs eciOk txsProof wtp _ _)); intro _ _
-  apply andThen_total (guardV_total _ (verifyLeaf_total Hs eciOk idsProof wip _ _)); intro _ _
+  apply andThen_total (mapErr_total _ (decodeEciOpt_total Hs eciOk fix _ _)); intro eci _
+  apply andThen_total (guardV_total _ (verifyLeaf_total Hs eciOk fix txsProof wtp _ _)); intro _ _
+  apply andThen_total (guardV_total _ (verifyLeaf_total Hs eciOk fix idsProof wip _ _)); intro _ _
   exact ⟨_, rfl⟩
 
 /-- `SubmittedRollupData::try_from_raw` never panics. -/
